@@ -23,6 +23,10 @@ def main():
     if "--tier" in sys.argv:
         tier = sys.argv[sys.argv.index("--tier") + 1]
         args = [a for a in args if a != tier]
+    save_as = None
+    if "--save-regress" in sys.argv:
+        save_as = sys.argv[sys.argv.index("--save-regress") + 1]
+        args = [a for a in args if a != save_as]
     patch, props = os.path.abspath(args[0]), args[1:]
     wt = tempfile.mkdtemp(prefix="verif-mut-", dir="/tmp")
     os.rmdir(wt)
@@ -53,6 +57,15 @@ def main():
             print(f"{p} {tier}: {verdict} ({time.time()-t0:.0f}s) " + (" | ".join(s.split('signature:')[1].strip() for s in sigs[:3])))
             if r.returncode == 2:
                 print("   " + "\n   ".join(r.stdout.splitlines()[-6:]))
+            if save_as and viol:
+                # keep the (shrunk) distinguishing case as a committed regression replay of that property
+                for v in viol:
+                    rp = v.split("replay=")[-1].strip()
+                    if os.path.isfile(rp) and os.path.getsize(rp) <= 200_000:
+                        dst = f"{HERE}/replays/{p}/regress"
+                        os.makedirs(dst, exist_ok=True)
+                        shutil.copy(rp, f"{dst}/seeded-{save_as}.json")
+                        break
             results[p] = {"verdict": verdict, "signatures": [s.split('signature:')[1].strip() for s in sigs], "seconds": round(time.time()-t0, 1)}
     finally:
         if "--keep" not in flags:
